@@ -437,7 +437,10 @@ fn gen_case(rng: &mut Rng, roots: &[Pos], budget: u8, l: &mut Local) -> Option<C
         0 => {
             // more than 256 searches on one table without a reset
             l.feat("chain_crossing_256_searches");
-            let (fen, moves, _p) = random_position(rng, roots, l)?;
+            let (fen, moves, p0) = random_position(rng, roots, l)?;
+            if p0.b.iter().flatten().filter(|pc| pc.k == Kind::Q).count() >= 8 {
+                return None; // 257 fixed-depth searches of a quiescence-heavy root would take minutes
+            }
             for _ in 0..(257 + rng.below(30)) {
                 steps.push(Step { fen: fen.clone(), moves: moves.clone(), limit: Limit::Depth(1 + rng.below(2) as u8), pre: 0, arg: 0 });
             }
